@@ -199,6 +199,7 @@ Definition srv_step (strict scmpstrict keyok epochok : bool) (kreqs : list kreq)
                  else C13_srv_nokey_ok (s_local_port c) (s_conn_port c) socks sender qr (pv_rev q) sobs_) &&
                 (if strict && s_fetcher c then C13_srv_strict_ok (s_local_port c) epochok qr sobs_ else true) &&
                 forallb (srv_keyreq_ok qr) kreqs && (zlen kreqs <=? 1) &&
+                C13_srv_fwdext_ok (s_local_port c) qr sobs_ &&
                 (if scmpstrict then C13_srv_scmpauth_ok (s_fetcher c) qr (pv_mac q) sobs_ else true) in
   (agree, oracle).
 
@@ -454,7 +455,7 @@ Definition authopt_case (a o : list value) : verdict :=
 
 Open Scope string_scope.
 Definition glue_C13 (k : string) (a o : list value) : option verdict :=
-  if is k "srv" || is k "srv.probe" || is k "srv.keyed" || is k "srv.par" then Some (srv_case false false a o)
+  if is k "srv" || is k "srv.probe" || is k "srv.keyed" || is k "srv.par" || is k "srv.dual" || is k "srv.fwdnots" || is k "srv.fwdhbh" then Some (srv_case false false a o)
   else if is k "srv.strict" then Some (srv_case true false a o)
   else if is k "srv.scmpauth" then Some (srv_case false true a o)
   else if is k "svc.spao" then Some (svc_case a o)
